@@ -563,6 +563,16 @@ func (rn *run) buildRequest() (*http.Request, *scriptBody, []byte) {
 		hdr.Del("Connect-Protocol-Version")
 		method = http.MethodPost
 		query = url.Values{"connect": {"v1"}}
+	case "connectq-post-ct":
+		hdr.Del("Connect-Protocol-Version")
+		if hdr.Get("Content-Type") == "" {
+			hdr.Set("Content-Type", "application/"+cl.Codec)
+		}
+		method = http.MethodPost
+		if query == nil {
+			query = url.Values{}
+		}
+		query.Set("connect", "v1")
 	case "unknownpath", "unknownpath-handler", "unknownpath-handler-http1":
 		if cl.Form == "rest" {
 			path = "/v9/nothing/here"
